@@ -331,6 +331,32 @@ def spec_check(req, impl, xm):
                 return "violates", "UCS-4 value %X is not a scalar value but was decoded" % v
             want += utf16_of(v)
         return ("ok", "") if units == want else ("violates", "decoded units differ")
+    if op == "probe":
+        # XML 1.0 Appendix F / theorems T05_probe_decl, T05_probe_bom16, T05_probe_bom4, T05_probe_utf8_bom
+        b = parse_units(a[1], 2)
+        decl = [0x3C, 0x3F, 0x78, 0x6D, 0x6C, 0x20]
+        want = None
+        fam = [("UTF_8", decl), ("UTF_16B", [x for c in decl for x in (0, c)]), ("UTF_16L", [x for c in decl for x in (c, 0)]),
+               ("UCS_4B", [x for c in decl for x in (0, 0, 0, c)]), ("UCS_4L", [x for c in decl for x in (c, 0, 0, 0)])]
+        for nm, pre in fam:
+            if b[:len(pre)] == pre:
+                want = nm
+        if b[:6] == [0x4C, 0x6F, 0xA7, 0x94, 0x93, 0x40] and len(b) > 6:
+            want = "EBCDIC"
+        if len(b) >= 4 and want is None:
+            if b[:4] == [0, 0, 0xFE, 0xFF]:
+                want = "UCS_4B"
+            elif b[:4] == [0xFF, 0xFE, 0, 0]:
+                want = "UCS_4L"
+            elif b[:2] == [0xFE, 0xFF]:
+                want = "UTF_16B"
+            elif b[:2] == [0xFF, 0xFE]:
+                want = "UTF_16L"
+            elif b[:3] == [0xEF, 0xBB, 0xBF]:
+                want = "UTF_8"
+        if want is None:
+            return "unknown", ""
+        return ("ok", "") if impl == "ok " + want else ("violates", "Appendix F: these bytes start a %s entity" % want)
     if op == "can":
         c = int(a[2])
         if a[1] in TABS and c > 0xFFFF and impl == "ok 1":
